@@ -33,6 +33,8 @@ def mats(n, symm):
 
 def units(tier):
     th = tier == "thorough"
+    for perm in range(24):
+        yield {"leg": "seq", "perm": perm}
     for ti in range(3):
         for symm in (True, False):
             for per_cell in (False, True, "first", "middle", "once+extra"):
@@ -48,9 +50,55 @@ def units(tier):
                         yield {"t": ti, "symm": symm, "per_cell": per_cell, "names": list(names)}
 
 
+SEQ_TABLES = [((2, 2), (2,)), ((2,), (2, 2)), ((1, 3), (2,)), ((3,), (1, 2))]      # 2 chromosomes, 3 bins, different boundaries
+
+
+def _seq(R, unit, only):
+    """single-cell files written one after the other to the SAME path on tables that agree in chromosome and bin counts only"""
+    import cooler
+    from cooler import fileops
+    order = list(itertools.permutations(range(4)))[unit["perm"]]
+    R.add("traces")
+    p = scratch.fresh(".scool")
+    try:
+        for step, ti in enumerate(order):
+            bins = alpha.table_bins(SEQ_TABLES[ti], "chr")
+            n = len(bins)
+            names = ["c1", "c2"]
+            pix = {nm: fx.pixvals([(0, 0), (0, 2), (1, 1 + q)], n, scale=q + 1 + step) for q, nm in enumerate(names)}
+            inner = {"step": step, "table": ti}
+            R.order = (R.order[0], step)
+            R.ev(1, 1 if step else 0)
+            R.add("states")
+            R.add("transitions", 5)
+            R.cls("seq-same-path")
+            try:
+                cooler.create_scool(p, build.bins_df(bins), {nm: fx.frame(pix[nm], ("count",)) for nm in names}, ordered=True)
+                for nm in names:
+                    v = h5ref.validate(p, "/cells/" + nm)
+                    if v:
+                        R.mismatch("V:" + v[0], {**inner, "cell": nm}, f"{v}")
+                    clr = cooler.Cooler(p + "::/cells/" + nm)
+                    for c in ("chr2", "chr10"):
+                        want = [k for k, b in enumerate(bins) if b[0] == c]
+                        lo, hi = [int(x) for x in clr.extent(c)]
+                        if (lo, hi) != (want[0], want[-1] + 1):
+                            R.mismatch("cell-extent!=its-chromosome", {**inner, "cell": nm, "chrom": c}, f"got={(lo, hi)} want={(want[0], want[-1] + 1)}")
+                    df = clr.pixels()[:]
+                    if {(a, b): c for a, b, c in zip(df["bin1_id"].tolist(), df["bin2_id"].tolist(), df["count"].tolist())} != {k: v["count"] for k, v in pix[nm].items()}:
+                        R.mismatch("cell-pixels!=its-input", {**inner, "cell": nm}, "")
+            except Exception as e:
+                R.mismatch("read-raises:" + type(e).__name__, inner, f"{e!s:.300}")
+    finally:
+        scratch.rm(p)
+
+
 def run(unit, R, tier, only=None):
     import cooler
     from cooler import fileops
+    if unit.get("leg") == "seq":
+        _seq(R, unit, only)
+        return
     ti, symm, per_cell = unit["t"], unit["symm"], unit["per_cell"]
     bins = alpha.table_bins(TABLES[ti], "chr")
     n = len(bins)
